@@ -727,7 +727,7 @@ func checkBounds(res *Result) {
 	args = append(args, pkgs...)
 	cmd := exec.Command("go", args...)
 	cmd.Dir = repoDir
-	cmd.Env = append(loadEnv(), "GOCACHE="+cache, "GOFLAGS=-mod=mod") // no -trimpath: the report must name real file paths
+	cmd.Env = append(loadEnv(), "GOFLAGS=-mod=mod") // no -trimpath: the report must name real file paths; the shared build cache replays the diagnostics of cached compilations
 	out, err := cmd.CombinedOutput()
 	if err != nil && !strings.Contains(string(out), "Found Is") {
 		res.undecided("C11-R2", "go build", "-", "the compiler's bounds report could be produced", fmt.Sprintf("%v: %s", err, firstLine(string(out))))
